@@ -373,17 +373,35 @@ theorem tail_inv (K : Crypto) (hK : GroupOK K) (dm : DataMsg) (tlvs : List Tlv) 
   refine ⟨fun _ => ?_, fun _ => ?_⟩
   · apply wp_randRead_x
     intro np env' mm'
-    simp only [wp_bind, wp_modc]
-    split
-    · simp only [wp_bind, wp_throw]
-      exact hrot1 np
-    · simp only [wp_bind, wp_modc, wp_ite', wp_pure]
-      exact hrest _ (hrot2 np)
-  · split
-    · simp only [wp_bind, wp_throw]
-      exact hrot1 none
-    · simp only [wp_bind, wp_modc, wp_ite', wp_pure]
+    simp only [wp_bind, wp_modc, wp_ite', wp_pure]
+    cases hE : (Keys.rotateOurKeys K s.conv.keys dm.recipientKeyID np).snd with
+    | none =>
+      simp only [wp_bind, wp_modc, wp_ite', wp_pure, Option.isNone_none, true_implies, not_true_eq_false,
+        false_implies, and_true]
+      exact hrest ⟨_, env', s.events, mm'⟩ (hrot2 np)
+    | some e =>
+      simp only [wp_bind, wp_modc, wp_ite', wp_pure, Option.isNone_some, Bool.false_eq_true, false_implies,
+        not_false_eq_true, true_implies, true_and]
+      refine wp_mono _ _ _ _ _ _ (processTLVs_gen K tlvs x (InvV K) NoP (fun c hc => ⟨hc.1.disc, hc.2⟩)
+        (processSMPTLV_inv K hK) hlen ⟨_, env', s.events, mm'⟩ (hrot1 np)) ?_ (fun _ hs => hs)
+      intro r s2 h2
+      cases r with
+      | error e => exact h2
+      | ok a => simp only [wp_bind, wp_throw]; exact h2
+  · cases hE : (Keys.rotateOurKeys K s.conv.keys dm.recipientKeyID none).snd with
+    | none =>
+      simp only [wp_bind, wp_modc, wp_ite', wp_pure, Option.isNone_none, true_implies, not_true_eq_false,
+        false_implies, and_true]
       exact hrest ⟨_, s.env, s.events, s.mismatch⟩ (hrot2 none)
+    | some e =>
+      simp only [wp_bind, wp_modc, wp_ite', wp_pure, Option.isNone_some, Bool.false_eq_true, false_implies,
+        not_false_eq_true, true_implies, true_and]
+      refine wp_mono _ _ _ _ _ _ (processTLVs_gen K tlvs x (InvV K) NoP (fun c hc => ⟨hc.1.disc, hc.2⟩)
+        (processSMPTLV_inv K hK) hlen ⟨_, s.env, s.events, s.mismatch⟩ (hrot1 none)) ?_ (fun _ hs => hs)
+      intro r s2 h2
+      cases r with
+      | error e => exact h2
+      | ok a => simp only [wp_bind, wp_throw]; exact h2
 
 theorem raw_inv' (K : Crypto) (hK : GroupOK K) (header msg : Bytes) (s : MState) (h : InvV K s.conv) :
     ∃ r s', run' (processDataMessageRaw K header msg) s = .ok (.ok r, s') ∧ InvV K s'.conv := by
